@@ -25,68 +25,61 @@ def plus(st, a, c):
             return v
     t = fresh('p')
     z.add_eq(t, a, c)
-    note_shift(st, a, t, c)
     return t
 
 
-# ---- auxiliary difference terms: d == hi - lo, kept exact while hi / lo are shifted by constants.  A zone
-# relates two terms; "len - i == end - start" relates four, and is what a counted loop with a manual cursor
-# (`for _ in 0..len0 { .. i += 1 | len -= 1 .. }`) needs for `i < len`.  With d1 = len - i and d2 = end - start
-# as terms, the invariant is the difference constraint d1 == d2.
-def aux_get(st, hi, lo):
-    z = st.zone
+# ---- auxiliary difference terms (DESIGN 14.14).  st.aux: ((hi_place, lo_place, d), ...) with d == value(hi) -
+# value(lo) exactly, for PLACES ('len', mid) | ('loc', fid, local) | ('rs', ptr) / ('re', ptr) (start / end of the
+# Range stored at ptr).  A zone relates two terms; "len - i == end - start" relates four, and is what a counted
+# loop with a manual cursor (`for _ in 0..len0 { .. i += 1 | len -= 1 .. }`) needs for `i < len`.  With
+# d1 = len - i and d2 = end - start as terms the invariant is the difference constraint d1 == d2.  Places (not
+# terms) are the keys, so that the canonical renaming at loop heads cannot confuse two quantities that merely
+# happen to be equal at some moment.
+def exact_diff(z, a, b):
+    """c with a == b + c entailed, else None"""
+    for c in (0, 1, -1, 2, -2):
+        if z.entails_eq(a, b, c):
+            return c
+    return None
+
+
+def aux_find(st, hi, lo):
     for h, l, d in st.aux:
-        if (h is hi or z.entails_eq(h, hi)) and (l is lo or z.entails_eq(l, lo)):
+        if h == hi and l == lo:
             return d
     return None
 
 
-def aux_make(st, hi, lo):
-    """only when lo == 0 is entailed (then d == hi is a difference constraint)"""
-    z = st.zone
-    if aux_get(st, hi, lo) is not None or not z.entails_eq(lo, 0) or isinstance(hi, int):
-        return
-    d = fresh('x')
-    z.add_eq(d, hi)
-    st.aux = (st.aux + ((hi, lo, d),))[-8:]
+def aux_set(st, hi, lo, d):
+    st.aux = tuple(e for e in st.aux if not (e[0] == hi and e[1] == lo)) + ((hi, lo, d),)
+    st.aux = st.aux[-6:]
 
 
-def note_shift(st, old, new, c):
-    """new == old + c was just established: shifted copies of the auxiliary differences that mention old"""
-    if not st.aux or isinstance(old, int) or isinstance(new, int):
+def aux_drop(st, pred):
+    if st.aux:
+        st.aux = tuple(e for e in st.aux if not (pred(e[0]) or pred(e[1])))
+
+
+def aux_shift(st, place, c):
+    """the value at `place` has just become its old value + c"""
+    if not st.aux or c == 0:
         return
     z = st.zone
-    add = []
-    # by identity; when no entry mentions this very term, by equality in the zone (the same value may be held
-    # under several canonical names after a loop-head join)
-    ident = any(h is old or l is old for h, l, _ in st.aux)
+    out = []
     for h, l, d in st.aux:
-        dc = None
-        hit_h = h is old or (not ident and isinstance(h, Term) and z.entails_eq(h, old))
-        hit_l = (not hit_h) and (l is old or (not ident and isinstance(l, Term) and z.entails_eq(l, old)))
-        if hit_h:
-            dc = c
-        elif hit_l:
-            dc = -c
+        dc = c if h == place else (-c if l == place else None)
         if dc is None:
+            out.append((h, l, d))
             continue
-        # all terms are unsigned: the shifted difference may only be introduced when it cannot be negative
+        # all terms are unsigned: the shifted difference is kept only when it cannot be negative
+        if isinstance(d, int):
+            if d + dc >= 0:
+                out.append((h, l, d + dc))
+            continue
         if dc < 0 and not z.entails_le(-dc, d):
             continue
-        if isinstance(d, int):
-            nd = d + dc
-        else:
-            nd = None
-            for v in z.vars:
-                if v is not d and isinstance(v, Term) and v.name != '0' and z.entails_eq(v, d, dc):
-                    nd = v
-                    break
-            if nd is None:
-                nd = fresh('x')
-                z.add_eq(nd, d, dc)
-        add.append((new, l, nd) if hit_h else (h, new, nd))
-    if add:
-        st.aux = (st.aux + tuple(add))[-8:]
+        out.append((h, l, plus(st, d, dc)))
+    st.aux = tuple(out)
 
 
 def in_range(z, idx, rng):
